@@ -259,8 +259,10 @@ def c03_cases(tier, rng):
             for closure in (False, True):
                 base.append((size, seg, imm, closure))
     for size, seg, imm, closure in base:
+        # the two entities' timer intervals are equal, or the receiver's are a quarter / four times the sender's
+        asym = rng.choice([None, None, {"ack_ms": 250, "nak_ms": 250}, {"ack_ms": 4000, "nak_ms": 4000}, {"ack_ms": 250}])
         mk = lambda K: Cfg(mode=0, closure=closure, max_seg=seg, imm_nak=imm, ack_limit=K + 1 + 2, nak_limit=K + 1 + 2,
-                           cktype=rng.choice([3, 2, 15, 0]), ack_ms=1000, nak_ms=1000)
+                           cktype=rng.choice([3, 2, 15, 0]), ack_ms=1000, nak_ms=1000, dst_over=asym)
         data = bytes((3 * i + 7) % 256 for i in range(size))
         space = fault_space(3 + (size + seg - 1) // seg + 4)
         yield SysCase(mk(0), data, [], tag="c03")
@@ -529,3 +531,67 @@ def run_c16_case(cfg, data, faults, extra_sm):
                 seq = e[2]
         out[vfs] = (c, normalise_trace(c.sides, -12345), audit_hits)
     return out
+
+
+# ------------------------------------------------------------------ System.v versus the Python scheduler + real handlers
+def system_model_ops(case: SysCase):
+    """Int coding of a finished SysCase for Run.run_system, or None when the case uses something System.v does not model
+    (extra empty calls, bit flips, write rejection, prepared destination, metadata-only)."""
+    cfg = case.cfg
+    if case.extra_sm or case.reject_round is not None or case.dst_is_dir or case.dst_exists or case.vfs != "native" \
+            or cfg.metadata_only or case.data is None or any(f.kind not in ("drop", "dup", "delay") for f in case.faults):
+        return None
+    w = case.world
+    put = next((o for o in w.src.ops if o and o[0] == 8), None)
+    if put is None:
+        return None
+    kind_code = {"drop": 0, "dup": 1, "delay": 2}
+    fts = []
+    for f in case.faults:
+        fts += [0 if f.direction == "s2d" else 1, f.index, kind_code[f.kind], f.arg]
+    tick = min([cfg.ack_ms, cfg.nak_ms, cfg.check_ms] + [v for k, v in (cfg.dst_over or {}).items() if k.endswith("_ms")])
+    return [list(w.src.ops[0]), list(w.dst.ops[0]), list(put),
+            codec.enc_path(cfg.src_path) + [len(case.data)] + list(case.data),
+            [len(case.faults)] + fts, [case.max_rounds, tick], codec.enc_path(resolved_dest(cfg, False))]
+
+
+def system_impl_obs(case: SysCase):
+    """What run_system reports, read off the finished Python run."""
+    r = case.runner
+
+    def evs(events):
+        out = [len(events)]
+        for e in events:
+            out += codec.enc_event(e)
+        return out
+    data = case.dest_bytes
+    return [[1 if case.quiescent else 0, r.round, case.now],
+            [x for side, exc, _ in case.api_exc for x in (0 if side == "source" else 1, exc)],
+            evs(case.src_events), evs(case.dst_events),
+            [0, 0, 0] if data is None else [1, 0, len(data)] + list(data),
+            [r.count["s2d"], r.count["d2s"]]]
+
+
+def system_correspondence(hc, cases, theorem):
+    """Compare System.v (both handler models + the scheduler model) with the Python scheduler driving the real handlers
+    on the same configurations, files and fault schedules: outcome, rounds, clock, raised API errors, both event logs,
+    destination file, PDU counts."""
+    from harness import common
+    sel = [(c, system_model_ops(c)) for c in cases]
+    sel = [(c, o) for c, o in sel if o is not None]
+    if not sel:
+        return 0
+    model = common.run_model("system", [o for _, o in sel])
+    n = 0
+    for (c, ops), mo in zip(sel, model):
+        n += 1
+        io = system_impl_obs(c)
+        if mo != io:
+            first = next((i for i, (a, b) in enumerate(zip(mo, io)) if a != b), None)
+            names = ["outcome/rounds/clock", "API errors", "sender events", "receiver events", "destination file", "PDU counts"]
+            hc.v.violation("correspondence: System.v and the Python scheduler with the real handlers differ on " +
+                           (names[first] if first is not None and first < len(names) else "the shape of the result"),
+                           {"theorem": theorem, "ops": ops, "model": mo[:6], "impl": io[:6], "case": c.describe()}, has_input=False)
+            if len(hc.v.violations) > 3:
+                break
+    return n
